@@ -93,6 +93,8 @@ def run(repo, rep, tier):
     # TypeError on valid MOF: every value-carrying symbol of every
     # alternative is read by the action
     from .c08 import _r8_symbols_consumed
+    from .c12 import compiler_names_the_namespace
+    compiler_names_the_namespace(repo, rep, 'C09.R15')
     _r8_symbols_consumed(repo, rep, 'C09.R14', exempt={
         ('p_instanceDeclaration', 'qualifierList'):
         'the qualifier list of `instance of` is dropped on purpose '
